@@ -394,6 +394,11 @@ def _asm_far(theta, phi, amn, lmax):
     """
     asm = np.roll(uts_scsmfo.asm(amn, lmax, theta, phi),
                   -1).reshape((2,2)) * -0.5 #correction factor
+    # SCSMFO's unit vector perpendicular to the scattering plane is opposite
+    # to Bohren & Huffman's (used everywhere else in holopy): the elements
+    # coupling parallel and perpendicular components change sign
+    asm[0, 1] *= -1
+    asm[1, 0] *= -1
     return asm
 
 def _integrate4pi(integrand):
